@@ -7,3 +7,4 @@ pub mod mach;
 pub mod prog;
 pub mod refmach;
 pub mod rom;
+pub mod sysobs;
